@@ -183,3 +183,150 @@ func nodeString(c *core.Ctx, n ast.Node) string {
 	}
 	return c.RelPos(n.Pos())
 }
+
+// FailStop — R-FAILSTOP: a failed step stops the program.
+//
+// In every func(S)(Try[_],S) literal: when the Try result r of one run (r, ns := st(s)) is followed by another run
+// on some path, that path passes a condition that examines r. Otherwise the later step also runs after a failure,
+// its effects happen and the reported state is not the state at the point of failure.
+func FailStop(c *core.Ctx, rule string, pkgs []*packages.Package, floorPairs int) {
+	c.Rule(rule, "in every func(S)(Try[_],S) literal, every path from one StateT run to a later run passes a condition that examines the first run's Try result (a success/failure test): when a step fails, later steps do not run")
+	nPairs := 0
+	for _, fb := range funcBodies(c, pkgs) {
+		if fb.Lit == nil {
+			continue
+		}
+		info := fb.Pkg.TypesInfo
+		tv, ok := info.Types[fb.Lit]
+		if !ok {
+			continue
+		}
+		sig, _ := tv.Type.Underlying().(*types.Signature)
+		S := stateShape(sig)
+		if S == nil {
+			continue
+		}
+		g := newCFG(c, fb)
+		type run struct {
+			blk   *cfg.Block
+			idx   int
+			call  *ast.CallExpr
+			res   types.Object // Try result variable (nil: not bound)
+			bound bool
+		}
+		var runs []run
+		isRun := func(call *ast.CallExpr) bool {
+			if len(call.Args) != 1 {
+				return false
+			}
+			var fsig *types.Signature
+			if ftv, ok := info.Types[call.Fun]; ok {
+				fsig, _ = ftv.Type.Underlying().(*types.Signature)
+			}
+			if sel, ok := ast.Unparen(call.Fun).(*ast.SelectorExpr); ok && sel.Sel.Name == "Run" {
+				if rtv, ok := info.Types[sel.X]; ok && isNamed(rtv.Type, "fp", "StateT") {
+					fsig, _ = rtv.Type.Underlying().(*types.Signature)
+				}
+			}
+			if stateShape(fsig) == nil {
+				return false
+			}
+			atv, ok := info.Types[call.Args[0]]
+			return ok && types.Identical(atv.Type, S)
+		}
+		for _, b := range g.Blocks {
+			for i, nd := range b.Nodes {
+				inspectShallow(nd, func(x ast.Node) bool {
+					call, ok := x.(*ast.CallExpr)
+					if !ok || !isRun(call) {
+						return true
+					}
+					r := run{blk: b, idx: i, call: call}
+					if as, ok := nd.(*ast.AssignStmt); ok && len(as.Lhs) == 2 && len(as.Rhs) == 1 && ast.Unparen(as.Rhs[0]) == ast.Expr(call) {
+						r.bound = true
+						r.res = objOf(info, as.Lhs[0])
+					}
+					runs = append(runs, r)
+					return true
+				})
+			}
+		}
+		if len(runs) < 2 {
+			continue
+		}
+		mentions := func(nd ast.Node, o types.Object) bool {
+			return o != nil && nodeContains(nd, true, func(x ast.Node) bool {
+				id, ok := x.(*ast.Ident)
+				return ok && info.Uses[id] == o
+			})
+		}
+		containsRun := func(nd ast.Node, r run) bool {
+			return nodeContains(nd, true, func(x ast.Node) bool { return x == ast.Node(r.call) })
+		}
+		for i, r1 := range runs {
+			if !r1.bound {
+				continue // the run is the tail of the function (return st(s)): nothing follows
+			}
+			// unguarded reachability from just after r1
+			reached := map[int]bool{}
+			seen := map[*cfg.Block]bool{}
+			var scan func(b *cfg.Block, from int)
+			scan = func(b *cfg.Block, from int) {
+				for k := from; k < len(b.Nodes); k++ {
+					nd := b.Nodes[k]
+					if _, isStmt := nd.(ast.Stmt); !isStmt && mentions(nd, r1.res) {
+						return // a condition examining the result guards everything beyond
+					}
+					for j, r2 := range runs {
+						if j != i && containsRun(nd, r2) && !mentions(r2.call.Fun, r1.res) {
+							// (a later step built from the result itself — f(r)(ns) — hands the Try to the continuation, which decides)
+							reached[j] = true
+						}
+					}
+				}
+				for _, s := range b.Succs {
+					if !seen[s] {
+						seen[s] = true
+						scan(s, 0)
+					}
+				}
+			}
+			scan(r1.blk, r1.idx+1)
+			for j := range runs {
+				if !reached[j] {
+					continue
+				}
+				nPairs++
+				c.Add(rule, fb.Name+"/run#"+itoa(i+1)+">run#"+itoa(j+1), runs[j].call.Pos(), core.Violated,
+					"`"+exprString(runs[j].call)+"` is reachable from `"+exprString(r1.call)+"` without any test of that step's result: after a failed step the next step still runs (its effects happen, and the state returned is not the state at the point of failure)")
+			}
+			// guarded pairs (for the count): runs reachable at all
+			seen2 := map[*cfg.Block]bool{}
+			var all func(b *cfg.Block, from int)
+			all = func(b *cfg.Block, from int) {
+				for k := from; k < len(b.Nodes); k++ {
+					for j, r2 := range runs {
+						if j != i && containsRun(b.Nodes[k], r2) && !reached[j] {
+							reached[j] = true // reuse as "reported"
+							nPairs++
+							c.Add(rule, fb.Name+"/run#"+itoa(i+1)+">run#"+itoa(j+1), r2.call.Pos(), core.Discharged, "the later run is behind a test of (or is built from) "+func() string {
+								if r1.res != nil {
+									return r1.res.Name()
+								}
+								return "the result"
+							}())
+						}
+					}
+				}
+				for _, s := range b.Succs {
+					if !seen2[s] {
+						seen2[s] = true
+						all(s, 0)
+					}
+				}
+			}
+			all(r1.blk, r1.idx+1)
+		}
+	}
+	c.Floor(rule, "ordered pairs of runs in one state function", nPairs, floorPairs)
+}
